@@ -1,5 +1,6 @@
 import ParryModel.Proto
 import ParryModel.C14.Model
+import ParryModel.C14.Model2
 /-! C14 protocol handlers: model evaluation at `Float` and exact-`Rat` oracles on implementation output. -/
 namespace C14
 open Model Proto
@@ -195,6 +196,10 @@ inductive Sh3 where
   | halfspace (n : V3 Rat)
   | capsule (hh r : Rat)
   | triangle (a b c : V3 Rat)
+  /-- `Cylinder::new(hh, r)` / `Cone::new(hh, r)` (axis y, apex at `+hh`) / a segment -/
+  | cylinder (hh r : Rat)
+  | cone (hh r : Rat)
+  | segment (a b : V3 Rat)
 
 def seqShapes3 (s : Seq3) : Sh3 × Sh3 :=
   let a := q3 s.a; let b := q3 s.b; let e := q s.e
@@ -260,6 +265,26 @@ def onShape3 (sh : Sh3) (p : V3 Rat) (tol : Rat) : Option String :=
   | .triangle a b c =>
     let d2 := triDistSq3 a b c p
     if leTol d2 0 tol then none else some s!"off-triangle d²={d2}"
+  | .cylinder hh r =>
+    -- squared distance to the solid cylinder: axial excess and radial excess
+    let rho2 := p.x * p.x + p.z * p.z
+    let ey := max 0 (rabs p.y - hh)
+    let er := if rho2 ≤ r * r then 0 else Rat.sqrtApprox rho2 - r
+    let d2 := ey * ey + er * er
+    if leTol d2 0 tol then none else some s!"outside-cylinder |y|={rabs p.y} hh={hh} rho²={rho2} r²={r*r}"
+  | .cone hh r =>
+    -- `|y| ≤ hh` and `rho ≤ R(y) = r (hh − y) / (2hh)`; the radial excess is measured perpendicular to the slanted side
+    let rho2 := p.x * p.x + p.z * p.z
+    let ey := max 0 (rabs p.y - hh)
+    let yc := clampR p.y (-hh) hh
+    let R := r * (hh - yc) / (2 * hh)
+    let er := if rho2 ≤ R * R then 0 else Rat.sqrtApprox rho2 - R
+    let c2 := (4 * hh * hh) / (4 * hh * hh + r * r)
+    let d2 := ey * ey + er * er * c2
+    if leTol d2 0 tol then none else some s!"outside-cone y={p.y} hh={hh} rho²={rho2} R²={R*R}"
+  | .segment a b =>
+    let d2 := segDistSq3 a b p
+    if leTol d2 0 tol then none else some s!"off-segment d²={d2}"
 
 def vertsCuboid (he : V3 Rat) : List (V3 Rat) :=
   [he.x, -he.x].flatMap fun x => [he.y, -he.y].flatMap fun y => [he.z, -he.z].map fun z => ⟨x, y, z⟩
@@ -915,6 +940,240 @@ def hf2Oracle (c : HF2) (outs : List (List (Nat × Nat × Manifold2 Float))) : S
   | some r => s!"fail {r}"
   | none => "pass"
 
+/-! ### round fu4: `clip_segment_segment`, Compound-vs-Compound histories, pfm/pfm edge pairs -/
+
+def fclip3 (c : Clip3 Float) : String := s!"{fv3 c.p1} {fv3 c.p2} {c.f1} {c.f2}"
+def fclip2 (c : Clip2 Float) : String := s!"{fv2 c.p1} {fv2 c.p2} {c.f1} {c.f2}"
+def lift3 (v : V2 Float) : V3 Float := ⟨v.x, v.y, 0.0⟩
+
+/-- the property's clauses on the real output of `clip_segment_segment`, exact: `None` iff the projected ranges are
+disjoint; otherwise for both pairs `p1` lies on segment 1, `p2` on segment 2, `p2 − p1` is orthogonal to segment 1, and the
+pairs sit at the two ends of the common range (`max(0, lo₂)` and `min(|t|², hi₂)` in the coordinate `(· − a1)·t`). -/
+def cssOracle (a1 b1 a2 b2 : V3 Float) (out : Option (List (V3 Float × V3 Float))) : String :=
+  let A1 := q3 a1; let B1 := q3 b1; let A2 := q3 a2; let B2 := q3 b2
+  let t := B1.sub A1
+  let sqn := t.normSq
+  let u20 := (A2.sub A1).dot t
+  let u21 := (B2.sub A1).dot t
+  let lo := min u20 u21; let hi := max u20 u21
+  let scale : Rat := 1 + sqn + rabs u20 + rabs u21
+  let tol : Rat := scale / 1000000000
+  if sqn = 0 then "skip point-like-segment-1" else
+  -- 0/0 in the code when segment 2 projects onto a single value (perpendicular or point-like): outside the callers' domain
+  if hi - lo ≤ tol * sqn / scale then "skip zero-projected-length-of-segment-2" else
+  match out with
+  | none => if lo < sqn - tol && hi > tol then s!"fail none-but-ranges-overlap lo={lo} hi={hi} sqn={sqn}" else "pass"
+  | some prs =>
+    if lo > sqn + tol || hi < -tol then s!"fail some-but-ranges-disjoint lo={lo} hi={hi} sqn={sqn}" else
+    if prs.any (fun pr => !(finite3 pr.1 && finite3 pr.2)) then "fail nonfinite-output" else
+    let want : List Rat := [max 0 lo, min sqn hi]
+    let ptol : Rat := (1 + A1.normSq + B1.normSq + A2.normSq + B2.normSq) / 1000000000000
+    let bad := (prs.zip want).findSome? fun (pr, w) =>
+      let p1 := q3 pr.1; let p2 := q3 pr.2
+      if segDistSq3 A1 B1 p1 > ptol then some s!"p1-off-segment-1 d²={segDistSq3 A1 B1 p1}"
+      else if segDistSq3 A2 B2 p2 > ptol then some s!"p2-off-segment-2 d²={segDistSq3 A2 B2 p2}"
+      else if rabs ((p2.sub p1).dot t) > tol then some s!"pair-not-aligned (p2-p1)·t={(p2.sub p1).dot t}"
+      else if rabs ((p1.sub A1).dot t - w) > tol then some s!"not-an-end-of-the-common-range coord={(p1.sub A1).dot t} expected={w}"
+      else none
+    match bad with
+    | some r => s!"fail {r}"
+    | none => if prs.length == 2 then "pass" else "fail wrong-arity"
+
+def pclipOut3 : P (Option (List (V3 Float × V3 Float))) := do
+  let t ← tok
+  if t = "none" then pure none else
+  if t = "some" then do
+    let a ← pov3; let b ← pov3; let _ ← pnat; let _ ← pnat
+    let c ← pov3; let d ← pov3; let _ ← pnat; let _ ← pnat
+    pure (some [(a, b), (c, d)])
+  else failure
+def pclipOut2 : P (Option (List (V3 Float × V3 Float))) := do
+  let t ← tok
+  if t = "none" then pure none else
+  if t = "some" then do
+    let a ← pov2; let b ← pov2; let _ ← pnat; let _ ← pnat
+    let c ← pov2; let d ← pov2; let _ ← pnat; let _ ← pnat
+    pure (some [(lift3 a, lift3 b), (lift3 c, lift3 d)])
+  else failure
+
+/-! #### Compound vs Compound: the keyed state machine against the real dispatcher -/
+
+structure CCCall where
+  flipped : Bool
+  root : Box3
+  /-- visited outer leaves, each with its query box in the inner composite's frame and the inner leaves visited -/
+  outer : List (Nat × Box3 × List Nat)
+
+structure CCCase where
+  parts1 : List Part3
+  parts2 : List Part3
+  pred : Float
+  poses : List (Iso3 Float)
+  aabbs1 : List Box3
+  aabbs2 : List Box3
+  calls : List CCCall
+
+def pcc : P CCCase := do
+  let p1 ← plist ppart3; let p2 ← plist ppart3; let pr ← pf
+  let poses ← plist piso3
+  let obs ← (do
+      let b1 ← pN pobox p1.length
+      let b2 ← pN pobox p2.length
+      let calls ← pN (do
+          let fl ← pbool; let rb ← pobox
+          let outer ← plist (do let l ← pnat; let bx ← pobox; let inner ← plist pnat; pure (l, bx, inner))
+          pure (⟨fl, rb, outer⟩ : CCCall)) poses.length
+      pure (b1, b2, calls)) <|> pure ([], [], [])
+  pure ⟨p1, p2, pr, poses, obs.1, obs.2.1, obs.2.2⟩
+
+/-- the visited pairs of a call, in visiting order, keyed in caller order -/
+def CCCall.keys (c : CCCall) : List (Nat × Nat) :=
+  c.outer.flatMap fun (l1, _, inner) => inner.map fun l2 => if c.flipped then (l2, l1) else (l1, l2)
+
+/-- the narrow phase of a pair: the pose arithmetic of the two `flipped` arms, then the modelled generator -/
+def ccNarrow (c : CCCase) (flipped : Bool) (P : Iso3 Float) (k : Nat × Nat) (m : WM) : WM :=
+  match c.parts1[k.1]?, c.parts2[k.2]? with
+  | some A, some B =>
+    let sub : Iso3 Float :=
+      if flipped then A.pose.invMul (P.mul B.pose)                       -- `part_pos2.inv_mul(&(pos21 * part_pos1))`
+      else (B.pose.invMul (P.inverse.mul A.pose)).inverse                -- `pos2211.inverse()`
+    let g : Manifold3 Float :=
+      match A.ty, B.ty with
+      | 0, 0 => ballBall3 sub A.p.x B.p.x c.pred m.data.2
+      | 0, _ => convexBallShapes3 (cuboidProject3 B.p) true sub A.p.x c.pred m.data.2
+      | _, 0 => convexBallShapes3 (cuboidProject3 A.p) false sub B.p.x c.pred m.data.2
+      | _, _ => m.data.2
+    { m with data := (m.data.1, g) }
+  | _, _ => m
+
+def ccModel (c : CCCase) : Option String :=
+  let fresh : Nat × Nat → WM :=
+    freshPair (0, Manifold3.new) (fun l => (c.parts1[l]?).map (·.pose)) (fun l => (c.parts2[l]?).map (·.pose))
+  let clr : Nat × Manifold3 Float → Nat × Manifold3 Float := fun d => (d.1, d.2.clear)
+  let rec go (k : Nat) (ws : KWorkspace (Nat × Nat)) (ms : List WM) : List (Iso3 Float) → List CCCall → Option (List String)
+    | [], _ => some []
+    | _, [] => none
+    | P :: ps, call :: cs =>
+      match keyedStep (ccNarrow c call.flipped P) clr fresh ws ms call.keys with
+      | none => some ["panic"]
+      | some (ws', ms') =>
+        let line := String.intercalate " " (toString ms'.length :: ms'.map fwm)
+        (go (k + 1) ws' (retag k ms') ps cs).map (line :: ·)
+  (go 0 KWorkspace.new [] c.poses c.calls).map (String.intercalate " ")
+
+def ccOracle (c : CCCase) (outs : List (List OutMan)) : String :=
+  if outs.length != c.poses.length || c.calls.length != c.poses.length then "fail wrong-number-of-calls" else
+  let n1 := c.parts1.length; let n2 := c.parts2.length
+  let overlapSet (bbs : List Box3) (box : Box3) : List Nat :=
+    (List.range bbs.length).filter fun i => match bbs[i]? with | some b => boxIntersects b box | none => false
+  let rec go (k : Nat) (prev : List ((Nat × Nat) × Nat)) : List (Iso3 Float) → List CCCall → List (List OutMan) → Option String
+    | [], _, _ => none
+    | _, [], _ => none
+    | _, _, [] => none
+    | P :: ps, call :: cs, ms :: rest =>
+      let (bo, bi) := if call.flipped then (c.aabbs2, c.aabbs1) else (c.aabbs1, c.aabbs2)
+      -- the two nested traversals visit exactly the exact box-overlap sets, once each
+      let So := overlapSet bo call.root
+      let outerIds := call.outer.map (·.1)
+      if !(sameSet outerIds So) then some s!"call={k} outer-traversal-visits={outerIds} exact-overlap-set={So}" else
+      let badInner := call.outer.findSome? fun (l1, bx, inner) =>
+        let Si := overlapSet bi bx
+        if !(sameSet inner Si) then some s!"call={k} leaf={l1} inner-traversal-visits={inner} exact-overlap-set={Si}" else none
+      if badInner.isSome then badInner else
+      let K := call.keys
+      if !K.Nodup then some s!"call={k} traversal-visits-a-pair-twice {K}" else
+      -- labels: both leaves in range, both part poses
+      let badLab := ms.findSome? fun o =>
+        match c.parts1[o.s1]?, c.parts2[o.s2]?, o.pos1, o.pos2 with
+        | some A, some B, some m1, some m2 =>
+          if fiso3 m1 == fiso3 A.pose && fiso3 m2 == fiso3 B.pose then none else some s!"call={k} pair=({o.s1},{o.s2}) subshape-pose-of-another-part"
+        | _, _, _, _ => some s!"call={k} malformed-label ({o.s1},{o.s2})"
+      if badLab.isSome then badLab else
+      let ids := ms.map fun o => (o.s1, o.s2)
+      if !ids.Nodup then some s!"call={k} two-manifolds-for-one-pair {ids}" else
+      let missing := K.filter (fun p => !ids.contains p)
+      if !missing.isEmpty then some s!"call={k} no-manifold-for-overlapping-pair {missing}" else
+      let extra := ids.filter (fun p => !K.contains p)
+      if !extra.isEmpty then some s!"call={k} manifold-for-non-overlapping-pair {extra}" else
+      let badTag := (ms.zip ids).filter fun (o, i) =>
+        match prev.find? (·.1 == i) with
+        | some (_, t) => o.tag != t
+        | none => o.tag != 0
+      if !badTag.isEmpty then some s!"call={k} manifold-data-not-following-its-pair {badTag.map (·.2)}" else
+      let Pq := qiso3 P
+      let subOf (A B : Part3) : Iso3 Rat := (qiso3 A.pose).invMul (Pq.mul (qiso3 B.pose))
+      let geo : Option String := ms.findSome? fun o =>
+        match c.parts1[o.s1]?, c.parts2[o.s2]? with
+        | some A, some B =>
+          let known := !(A.ty == 1 && B.ty == 1)
+          (manifoldOracleQ (partShape A, partShape B) (subOf A B) c.pred o.m none 0 known).map fun r => s!"call={k} pair=({o.s1},{o.s2}) {r}"
+        | _, _ => none
+      if geo.isSome then geo else
+      -- independent of every box: a pair of parts closer than the prediction must have its manifold
+      let Pr := q c.pred
+      let close : List (Nat × Nat) := (List.range n1).flatMap fun i => (List.range n2).filterMap fun j =>
+        match c.parts1[i]?, c.parts2[j]? with
+        | some A, some B =>
+          if A.ty == 1 && B.ty == 1 then none else
+          let D := exactDist3 (partShape A, partShape B) (subOf A B)
+          if D < Pr - (1 / 1000000) * (1 + rabs D + rabs Pr) && !ids.contains (i, j) then some (i, j) else none
+        | _, _ => none
+      if !close.isEmpty then some s!"call={k} no-manifold-for-pairs-within-prediction {close}" else
+      let tags := (List.range ms.length).zipWith (fun j i => (i, 1000 * (k + 1) + j + 1)) ids
+      go (k + 1) tags ps cs rest
+  match go 0 [] c.poses c.calls outs with
+  | some r => s!"fail {r}"
+  | none => "pass"
+
+/-! #### pfm/pfm pairs whose support features are edges -/
+
+structure Pfm3 where
+  kind : Nat
+  a : V3 Float
+  b : V3 Float
+  pred : Float
+  poses : List (Iso3 Float)
+  /-- observed one-shot `contact` per pose -/
+  oneshot : List (Bool × Float)
+
+def ppfm3 : P Pfm3 := do
+  let k ← pnat; let a ← pv3; let b ← pv3; let pr ← pf
+  let poses ← plist piso3
+  let o ← (pN (do let f ← pbool; let d ← pfo; pure (f, d)) poses.length) <|> pure []
+  pure ⟨k, a, b, pr, poses, o⟩
+
+def pfmShapes (s : Pfm3) : Sh3 × Sh3 :=
+  let a := q3 s.a; let b := q3 s.b
+  let ca (p : V3 Rat) : Sh3 := .capsule p.x p.y
+  let cy (p : V3 Rat) : Sh3 := .cylinder p.x p.y
+  let co (p : V3 Rat) : Sh3 := .cone p.x p.y
+  let sg (p : V3 Rat) : Sh3 := .segment ⟨0, -p.x, 0⟩ ⟨0, p.x, 0⟩
+  match s.kind with
+  | 0 => (ca a, cy b) | 1 => (cy a, ca b) | 2 => (cy a, cy b) | 3 => (sg a, cy b) | 4 => (cy a, sg b)
+  | 5 => (ca a, co b) | 6 => (co a, ca b) | 7 => (sg a, ca b) | _ => (ca a, sg b)
+
+/-- per call: unit normals opposite within 1°, `dist` identity on every contact, every witness on its shape (warm-start
+drift `1e-3` per consecutive fast-path call, as for the other warm generators) -/
+def pfmOracle (s : Pfm3) (ms : List (Manifold3 Float)) : String :=
+  if ms.length != s.poses.length then "fail wrong-number-of-calls" else
+  let sh := pfmShapes s
+  let rec go : Nat → List (Iso3 Float) → List (Manifold3 Float) → Option String
+    | _, [], _ => none
+    | _, _, [] => none
+    | i, p :: ps, m :: ms =>
+      let drift : Rat := ((i : Rat) + 1) / 1000
+      match manifoldOracle3 sh p s.pred m none drift false with
+      | some r =>
+        -- shapes touching at EXACTLY zero distance: GJK/EPA has no direction to return (one-shot `contact` = Some(0)); its own verdict
+        match s.oneshot[i]? with
+        | some (true, d) => if d == 0.0 then some s!"exact-touching-gjk-epa-degenerate call={i} {r}" else some s!"call={i} {r}"
+        | _ => some s!"call={i} {r}"
+      | none => go (i + 1) ps ms
+  match go 0 s.poses ms with
+  | some r => s!"fail {r}"
+  | none => "pass"
+
+
 def handler (fn : String) : Option Handler :=
   match fn with
   | "tuc3" => some {
@@ -1009,6 +1268,30 @@ def handler (fn : String) : Option Handler :=
       model := fun _ => some "oracle-only"
       oracle := fun a o => match run pseqt2 a with
         | some s => withOut (pN poman2 s.poses.length) o (seqtOracle2 s)
+        | none => "skip bad-args" }
+  | "css3" => some {
+      model := fun a => run (do let a1 ← pv3; let b1 ← pv3; let a2 ← pv3; let b2 ← pv3
+                                pure (match clipSegSeg3 a1 b1 a2 b2 with
+                                  | none => "none" | some (ca, cb) => s!"some {fclip3 ca} {fclip3 cb}")) a
+      oracle := fun a o => match run (do let a1 ← pv3; let b1 ← pv3; let a2 ← pv3; let b2 ← pv3; pure (a1, b1, a2, b2)) a with
+        | some (a1, b1, a2, b2) => withOut pclipOut3 o (cssOracle a1 b1 a2 b2)
+        | none => "skip bad-args" }
+  | "css2" => some {
+      model := fun a => run (do let a1 ← pv2; let b1 ← pv2; let a2 ← pv2; let b2 ← pv2
+                                pure (match clipSegSeg2 a1 b1 a2 b2 with
+                                  | none => "none" | some (ca, cb) => s!"some {fclip2 ca} {fclip2 cb}")) a
+      oracle := fun a o => match run (do let a1 ← pv2; let b1 ← pv2; let a2 ← pv2; let b2 ← pv2; pure (a1, b1, a2, b2)) a with
+        | some (a1, b1, a2, b2) => withOut pclipOut2 o (cssOracle (lift3 a1) (lift3 b1) (lift3 a2) (lift3 b2))
+        | none => "skip bad-args" }
+  | "cc3" => some {
+      model := fun a => match run pcc a with | some c => ccModel c | none => none
+      oracle := fun a o => match run pcc a with
+        | some c => withOut (pcalls c.poses.length) o (ccOracle c)
+        | none => "skip bad-args" }
+  | "pfm3" => some {
+      model := fun _ => some "oracle-only"
+      oracle := fun a o => match run ppfm3 a with
+        | some s => withOut (pmanlist3 s.poses.length) o (pfmOracle s)
         | none => "skip bad-args" }
   | _ => none
 
